@@ -131,6 +131,19 @@ def run(ctx):
                 rs.unrec("%s (%s): %s" % (name, how, detail[:160]))
         ctx.floor(rs, 16)
 
+    if ctx.want("R9"):
+        rs = ctx.rule("R9", "a substitution that fails inside the body of a quantifier leaves the caller's map as it was: later calls with that map answer as if the failing call had never been made")
+        from . import c05_deep
+        for cls, case, kind, detail in c05_deep.map_reuse_results():
+            nm = cls.split(".")[-1]
+            if kind == "ok":
+                rs.ok({"substituter": nm, "first call": case, "outcome": detail})
+            elif kind == "bad":
+                ctx.finding(rs, "map|%s|%s" % (nm, case), "%s, first call: %s: %s" % (nm, case, detail), "pysmt/substituter.py")
+            else:
+                rs.unrec("%s %s: %s" % (nm, case, detail))
+        ctx.floor(rs, 8)
+
     if ctx.want("R8"):
         rs = ctx.rule("R8", "human-readable parser object: after a text it rejected (names not declared yet, truncated text) it reads later texts as a fresh parser does")
         from . import text_deep as td
